@@ -620,7 +620,13 @@ func (r *stateResolverV2) calculateFullAuthChainAndConflictedSubgraph(
 			conflictedSubgraphEventIDs := append(slices.Clone(curr.visiting), curr.pdu.EventID())
 			fmt.Printf("found conflicted subgraph %v\n", conflictedSubgraphEventIDs)
 			for _, eventID := range conflictedSubgraphEventIDs {
-				conflictedSubgraph.Insert(r.authEventMap[eventID])
+				// the ends of the path are conflicted state events, which need not be
+				// among the supplied auth events
+				if ev, ok := r.authEventMap[eventID]; ok {
+					conflictedSubgraph.Insert(ev)
+				} else if ev, ok := r.conflictedEventMap[eventID]; ok {
+					conflictedSubgraph.Insert(ev)
+				}
 			}
 		}
 
